@@ -21,6 +21,7 @@ RULE = (
     "fresh name; distinct by (problem, compiler)."
 )
 SHARDS = {"quick": 16, "thorough": 16}
+CASE_TIMEOUT_S = 30  # CPU seconds per case; DNF / powerset compilations that explode are inconclusive, not judged
 
 NAME_POOL = [
     "a", "b", "c", "a_b", "b_c", "a_b_c", "c_d", "d", "A", "B", "Loc", "loc", "LOC", "x1", "x_1", "x", "1x".replace("1x", "x1y"),
